@@ -3,6 +3,7 @@ C11 — Chronological order, label order and comparison operators all agree.
 -/
 import JulianVerif.Lemmas.Proleptic
 import JulianVerif.Lemmas.YearStart
+import JulianVerif.Lemmas.Order
 namespace JV.C11
 open JV Spec
 
@@ -89,6 +90,70 @@ theorem date_eq_implies (a b : Date) (h : a.beq b = true) :
   refine ⟨?_, ?_⟩
   · rw [date_cmp_lex]; simp [hj, hc']
   · simp only [Date.hashKey, ((cal_eq_cmp_hash a.calendar b.calendar).2).mp hc', hy, ho, hm, hd, hdo, hj]
+
+/-- **within any calendar, year/month/day labels and year/day-of-year pairs increase
+strictly with the Julian day number** — across month ends, year ends and the reformation -/
+theorem label_strict_mono (c : Calendar) (hc : WF c) (j j' : Int) (hlt : j < j') (d d' : Date)
+    (h : c.atJdn? j = some d) (h' : c.atJdn? j' = some d') :
+    (d.year < d'.year ∨ (d.year = d'.year ∧ (d.month.number < d'.month.number
+        ∨ (d.month = d'.month ∧ d.day < d'.day))))
+    ∧ (d.year < d'.year ∨ (d.year = d'.year ∧ d.ordinal < d'.ordinal)) := by
+  obtain ⟨A⟩ := hc.accepting
+  exact ⟨A.label_mono j j' hlt d d' h h', A.year_ordinal_mono j j' hlt d d' h h'⟩
+
+/-- for calendars a caller can hold, comparing Equal means being the same value — the gap
+record is a function of the reformation day -/
+theorem cal_eq_of_cmp (c₁ c₂ : Calendar) (h₁ : WF c₁) (h₂ : WF c₂) (h : c₁.cmp c₂ = .eq) : c₁ = c₂ := by
+  have hk := (cal_cmp_eq c₁ c₂).mp h
+  rcases h₁ with rfl | rfl | ⟨R₁, hR₁, e₁⟩ <;> rcases h₂ with rfl | rfl | ⟨R₂, hR₂, e₂⟩
+  · rfl
+  · simp [calKey] at hk
+  · obtain ⟨rf, rfl, _⟩ := mk_reform R₂ hR₂ c₂ e₂
+    simp [calKey, Reform.cal] at hk
+  · simp [calKey] at hk
+  · rfl
+  · obtain ⟨rf, rfl, _⟩ := mk_reform R₂ hR₂ c₂ e₂
+    simp [calKey, Reform.cal] at hk
+  · obtain ⟨rf, rfl, _⟩ := mk_reform R₁ hR₁ c₁ e₁
+    simp [calKey, Reform.cal] at hk
+  · obtain ⟨rf, rfl, _⟩ := mk_reform R₁ hR₁ c₁ e₁
+    simp [calKey, Reform.cal] at hk
+  · -- both reforming: same reformation day, hence the same computed record
+    obtain ⟨rf₁, rfl, r₁, _⟩ := mk_reform R₁ hR₁ c₁ e₁
+    obtain ⟨rf₂, rfl, r₂, _⟩ := mk_reform R₂ hR₂ c₂ e₂
+    simp only [calKey, Reform.cal, Prod.mk.injEq, true_and] at hk
+    have : R₁ = R₂ := by rw [← r₁, ← r₂]; exact hk
+    subst this
+    rw [e₁] at e₂
+    injection e₂
+
+/-- **for dates the API hands out (canonical dates, C06), equality, ordering and hashing are
+mutually consistent**: they compare Equal exactly when they are the same value, and then
+they are `==` and hash identically -/
+theorem date_cmp_eq_iff (d₁ d₂ : Date) (w₁ : WF d₁.calendar) (w₂ : WF d₂.calendar)
+    (c₁ : d₁.calendar.atJdn? d₁.jdn = some d₁) (c₂ : d₂.calendar.atJdn? d₂.jdn = some d₂) :
+    (d₁.cmp d₂ = .eq ↔ d₁ = d₂)
+    ∧ (d₁.cmp d₂ = .eq → d₁.beq d₂ = true ∧ d₁.hashKey = d₂.hashKey) := by
+  have key : d₁.cmp d₂ = .eq → d₁ = d₂ := by
+    intro h
+    rw [date_cmp_lex] at h
+    by_cases a : d₁.jdn < d₂.jdn
+    · simp [a] at h
+    · by_cases b : d₁.jdn = d₂.jdn
+      · rw [if_neg a, if_pos b] at h
+        have hc := cal_eq_of_cmp _ _ w₁ w₂ h
+        rw [hc, b] at c₁
+        rw [c₁] at c₂
+        exact Option.some.inj c₂
+      · simp [a, b] at h
+  refine ⟨⟨key, ?_⟩, ?_⟩
+  · intro e; subst e
+    rw [date_cmp_lex]; simp [cal_cmp_refl]
+  · intro h
+    have e := key h
+    subst e
+    refine ⟨?_, rfl⟩
+    simp [Date.beq, Calendar.beq, cal_cmp_refl]
 
 /-- **label order = chronological order** in the proleptic calendars: year/month/day labels
 increase strictly with the day number -/
